@@ -239,6 +239,7 @@ type gwYaml struct {
 	certFile, keyFile     string
 	keytab, krb5conf      string
 	extraServer, extraSec []string
+	extraCaps             []string
 	sendBuf, recvBuf      int
 }
 
@@ -293,6 +294,9 @@ func (g *gwYaml) render() string {
 	}
 	if g.tokenAuth != nil {
 		fmt.Fprintf(&sb, "Caps:\n  tokenauth: %v\n", *g.tokenAuth)
+		for _, l := range g.extraCaps {
+			sb.WriteString("  " + l + "\n")
+		}
 	}
 	sb.WriteString("Security:\n  verifyclientip: true\n")
 	for k, v := range g.keys {
